@@ -203,3 +203,60 @@ package types
 //@   loop 1 invariant own:  fresh(changed)
 //@   loop 1 invariant seen: forall s int :: $seen(1, s) && in(s, b.changedShards) && b.changedShards[s] ==> exists k int :: 0 <= k && k < len(changed) && changed[k] == s
 //@ end
+
+// ---------------------------------------------------------------------------
+// C11 — empty server slots
+
+// trusted: appends one disabled placeholder endpoint to this backend only
+//@ func (*Backend).AddEmptyEndpoint
+//@   trusted
+//@   modifies b.Endpoints, objects("[]*Endpoint")
+//@   ensures one:  len(b.Endpoints) == old(len(b.Endpoints)) + 1 && result != nil && fresh(result)
+//@   ensures last: b.Endpoints[len(b.Endpoints)-1] == result && !result.Enabled
+//@ end
+
+// ---------------------------------------------------------------------------
+// C11 — the frontend change flag is exact: it says "changed" iff the bind list
+// differs from the committed one (what HAProxy has loaded).  The committed
+// list is ghost state (constant while the model is being changed).
+
+//@ ghost func committedLen(f *Frontend) int
+//@ ghost func committedPort(f *Frontend, k int) int
+//@ ghost func committedBackend(f *Frontend, k int) BackendID
+//@ spec func sameAsCommitted(f *Frontend) bool = len(f.AuthProxy.BindList) == committedLen(f) && forall k int :: 0 <= k && k < len(f.AuthProxy.BindList) ==>
+//@     f.AuthProxy.BindList[k].LocalPort == committedPort(f, k) && f.AuthProxy.BindList[k].Backend == committedBackend(f, k)
+//@ spec func flagSound(f *Frontend) bool = !f.changed ==> sameAsCommitted(f)
+//@ spec func flagMinimal(f *Frontend) bool = f.changed ==> !sameAsCommitted(f)
+
+//@ func (*Frontend).AcquireAuthBackendName#flag
+//@   props C11
+//@   requires named:  authProxyNamed(f)
+//@   requires sorted: authProxySorted(f)
+//@   requires sound:   flagSound(f)
+//@   requires minimal: flagMinimal(f)
+//@   ensures sound:   flagSound(f)
+//@   ensures minimal: flagMinimal(f)
+//@   loop 1 invariant scan: 0 <= $idx(1) && $idx(1) <= len(proxy.BindList) && proxy == &f.AuthProxy && f.AuthProxy.BindList == old(f.AuthProxy.BindList) && f.changed == old(f.changed)
+//@       && (forall j int :: 0 <= j && j < $idx(1) ==> !(proxy.BindList[j].Backend == backend))
+//@ end
+
+//@ func (*Frontend).RemoveAuthBackendByTarget#flag
+//@   props C11
+//@   requires named:  authProxyNamed(f)
+//@   requires sound:   flagSound(f)
+//@   requires minimal: flagMinimal(f)
+//@   ensures sound:   flagSound(f)
+//@   ensures minimal: flagMinimal(f)
+//@ end
+
+// the same for the TCP services flag: "changed" only if the set of ports
+// differs from the committed one (ghost)
+//@ ghost func tcpCommitted(s *TCPServices, port int) bool
+//@ spec func tcpFlagMinimal(s *TCPServices) bool = s.changed ==> exists p int :: in(p, s.items) != tcpCommitted(s, p)
+
+//@ func (*TCPServices).acquireTCPPort#flag
+//@   props C11
+//@   requires s.items != nil
+//@   requires minimal: tcpFlagMinimal(s)
+//@   ensures  minimal: tcpFlagMinimal(s)
+//@ end
